@@ -455,7 +455,7 @@ pub fn run_w(line: &str) -> Result<String, String> {
 			t => return Err(format!("unknown writer op {t}")),
 		})
 	})?;
-	let schema = match build::to_schema_mut(&raw).freeze() {
+	let schema = match build::to_schema_mut_sel(&raw, line.len()).freeze() {
 		Ok(s) => s,
 		Err(_) => return Ok("freeze-err".into()),
 	};
@@ -1005,6 +1005,7 @@ pub fn generate_x(seed: u64, n: usize, emit: &mut dyn FnMut(String)) {
 		attempts += 1;
 		let mut sg = SchemaGen::new(&mut rng, 8, false);
 		sg.decimals = false;
+		sg.odd_names = false;
 		let raw = sg.gen_root();
 		let Ok(schema) = build::to_schema_mut(&raw).freeze() else { continue };
 		// only schemas the other implementation accepts; it renames a `duration` fixed to
